@@ -11,7 +11,8 @@ RULE = ("cases = generated object trees (as C08: nested rand_attr/attr sub-objec
         "kinds randomize, randomize_with, free-standing vsc.randomize(obj), 1-3 calls per case.  Oracle: per call the "
         "multiset of 'pre' events = multiset of 'post' events = exactly the objects that are random in the call (top "
         "object, random sub-objects, elements of random object lists; nothing at or below a non-random sub-object), each "
-        "once; every pre precedes every post; the result satisfies the reference evaluated with the values written in "
+        "once (a sub-domain does the same on a cyclic object graph: an owner with a list of links that each hold the owner "
+        "as rand_attr, calls on the owner or on a link); every pre precedes every post; the result satisfies the reference evaluated with the values written in "
         "pre_randomize; the values seen inside post_randomize equal the values read after the call.  non-trivial = the "
         "tree has a non-random sub-object with children or fields and an object list, and a call returned; distinct = "
         "distinct canonical case")
@@ -50,6 +51,116 @@ def cases(d):
     return {"prog": prog, "writes": {k: [list(w) for w in v] for k, v in writes.items()}, "inline": inline, "calls": calls}
 
 
+
+
+# ------------------------------------------------------------------------------------------------
+# sub-domain: object graphs with a cycle (an owner holds a list of link objects, every link holds the owner as a
+# rand_attr - the shape of the repository's test_heterogenous_content): the recursion guard must still give every
+# object of the graph exactly one pre and one post callback per call
+CYCLIC_SRC = """
+@vsc.randobj
+class LinkBase(object):
+    pass
+
+@vsc.randobj
+class Owner(object):
+    def __init__(self):
+        self.a = vsc.rand_bit_t(4)
+        self.b = vsc.rand_bit_t(4)
+        self.links = vsc.rand_list_t(LinkBase(), 0)
+    def pre_randomize(self):
+        _pvs_log.append(("pre", "owner", None))
+    def post_randomize(self):
+        _pvs_log.append(("post", "owner", (int(self.a), int(self.b))))
+    @vsc.constraint
+    def oc(self):
+        self.a != self.b
+
+@vsc.randobj
+class Link(LinkBase):
+    def __init__(self, ptr, idx, k):
+        self.ptr = vsc.rand_attr(ptr)
+        self.idx = idx
+        self.k = vsc.bit_t(4)
+        self.k = k
+        self.x = vsc.rand_bit_t(3)
+    def pre_randomize(self):
+        _pvs_log.append(("pre", "link%d" % self.idx, None))
+    def post_randomize(self):
+        _pvs_log.append(("post", "link%d" % self.idx, (int(self.x),)))
+    @vsc.constraint
+    def lc(self):
+        self.ptr.a <= self.k
+        self.x != self.ptr.b[2:0]
+"""
+
+
+@hyp.composite
+def cyclic_cases(d):
+    n = d.randint(1, 3)
+    return {"cyclic": True, "ks": [d.randint(3, 15) for _ in range(n)],
+            "calls": [{"target": d.choice(["owner", "owner", "link"]), "idx": d.randint(0, n - 1), "seed": d.seed()}
+                      for _ in range(d.randint(1, 3))]}
+
+
+def run_cyclic(case):
+    from ..core.util import import_vsc
+    import enum as _enum
+    vsc = import_vsc()
+    info = {"returned": 0}
+    ks = case["ks"]
+    text = CYCLIC_SRC + "# owner = Owner(); links with k=%s appended to owner.links; calls %s" % (ks, cjson(case["calls"]))
+
+    def Vc(kind, detail, extra):
+        return {"property": PROPERTY, "kind": kind, "detail": detail, "case": case, "text": text + "\n# " + extra}
+    if not ks or not all(isinstance(k, int) and 0 <= k <= 15 for k in ks):
+        return [], info
+    log = []
+    reset_library()
+    try:
+        ns = {"vsc": vsc, "enum": _enum, "_pvs_log": log}
+        exec(compile(CYCLIC_SRC, "<pvs-c17-cyclic>", "exec"), ns)
+        owner = ns["Owner"]()
+        links = []
+        for i, k in enumerate(ks):
+            l = ns["Link"](owner, i, k)
+            owner.links.append(l)
+            links.append(l)
+    except Exception as e:
+        reset_library()
+        return [Vc("library_exception", "construction: " + exc_sig(e), repr(e)[:300])], info
+    expected = sorted(["owner"] + ["link%d" % i for i in range(len(ks))])
+    for ci, call in enumerate(case["calls"]):
+        tgt = owner if call["target"] == "owner" else links[call["idx"] % len(links)]
+        del log[:]
+        st, exc = flat.do_call(ns, tgt, "randomize", None, call["seed"])
+        where = "call %d on %s(seed=%d)" % (ci, call["target"] if call["target"] == "owner" else "link%d" % (call["idx"] % len(links)), call["seed"])
+        if st == "exc":
+            reset_library()
+            return [Vc("library_exception", "cyclic graph: " + exc.sig, where + " raised %r" % (exc,))], info
+        pre = sorted(n_ for ph, n_, _ in log if ph == "pre")
+        post = sorted(n_ for ph, n_, _ in log if ph == "post")
+        if pre != expected:
+            return [Vc("pre_randomize_set", "pre_randomize did not run exactly once on every object of a cyclic graph", where + ": pre ran on %s, expected %s" % (pre, expected))], info
+        if st == "sf":
+            return [Vc("spurious_solve_failure", "cyclic graph", where + ": a <= min(k) with a != b is satisfiable")], info
+        info["returned"] += 1
+        if post != expected:
+            return [Vc("post_randomize_set", "post_randomize did not run exactly once on every object of a cyclic graph", where + ": post ran on %s, expected %s" % (post, expected))], info
+        phases = [ph for ph, _, _ in log]
+        if "pre" in phases[phases.index("post"):]:
+            return [Vc("callback_order", "a pre_randomize ran after a post_randomize", where + ": %s" % [(ph, n_) for ph, n_, _ in log])], info
+        a, b = int(owner.a), int(owner.b)
+        if a == b or any(a > k for k in ks) or any(int(l.x) == (b & 7) for l in links):
+            return [Vc("pre_values_not_seen", "result violates the constraints of the cyclic graph", where + ": a=%d b=%d x=%s ks=%s" % (a, b, [int(l.x) for l in links], ks))], info
+        for ph, n_, vals in log:
+            if ph == "post":
+                final = (a, b) if n_ == "owner" else (int(links[int(n_[4:])].x),)
+                if tuple(vals) != final:
+                    return [Vc("post_before_final_values", "post_randomize saw values that differ from the final ones", where + ": %s saw %s, final %s" % (n_, vals, final))], info
+    return [], info
+
+
 def text_of(case):
     src = render.program_source(case["prog"]) + "# top object: %s()" % case["prog"]["top"]
     types, _, _ = tree.flatten(case["prog"])
@@ -68,6 +179,8 @@ def V(kind, detail, case, extra=None):
 
 
 def run_case(case):
+    if case.get("cyclic"):
+        return run_cyclic(case)
     prog = case["prog"]
     try:
         types, stmts, nodes = tree.flatten(prog)
@@ -163,6 +276,12 @@ def run_case(case):
 
 def body(case, acc):
     vios, info = run_case(case)
+    if case.get("cyclic"):
+        acc.case(case, info.get("returned", 0) > 0 and len(case["ks"]) >= 2, sample=CYCLIC_SRC)
+        acc.label("cyclic object graph")
+        for c in case["calls"]:
+            acc.label("cyclic call on " + c["target"])
+        return vios
     nt = info.get("returned", 0) > 0 and info.get("has_nonrand_subtree") and info.get("has_list")
     acc.case(case, bool(nt), sample=text_of(case))
     for c in case["calls"]:
@@ -179,11 +298,12 @@ def body(case, acc):
 
 
 def shards(tier):
-    return [{"i": i, "n": 120 if tier == "quick" else 4000} for i in range(16)]
+    return [{"i": i, "n": 120 if tier == "quick" else 4000} for i in range(15)] + \
+        [{"kind": "cyclic", "i": 0, "n": 60 if tier == "quick" else 1500}]
 
 
 def run_shard(spec, seed, tier, acc):
-    hyp.drive(cases(), body, seed, spec["n"], acc)
+    hyp.drive(cyclic_cases() if spec.get("kind") == "cyclic" else cases(), body, seed, spec["n"], acc)
 
 
 def replay(case):
